@@ -68,6 +68,13 @@ func init() {
 		for _, c := range p.Root.Cmds {
 			c.ArgComp = []string{"x1", "x2"}
 		}
+		// named synopsis arguments: none, one, two (the helpers are asked for more arguments than were named)
+		switch i % 4 {
+		case 1:
+			p.Root.SynArgs = [][2]string{{"<src>", "where from"}}
+		case 2:
+			p.Root.SynArgs = [][2]string{{"<src>", "where from"}, {"<dst>", ""}}
+		}
 		fuzzMenu = append(fuzzMenu, p)
 	}
 }
@@ -212,6 +219,23 @@ func ExecFuzz(c *FuzzCase) (verdict string, skipped bool) {
 			_, _, _ = b.Opt.GetRequiredArg(c.Tokens)
 			_, _, _ = b.Opt.GetRequiredArgInt(c.Tokens)
 			_, _, _ = b.Opt.GetRequiredArgFloat64(c.Tokens)
+			// a command function taking its arguments one by one, asking for more than there are and more than were named
+			b2 := Build(p)
+			defer b2.Cleanup()
+			args := append([]string{}, c.Tokens...)
+			if len(args) > 6 {
+				args = args[:6]
+			}
+			for k, n := 0, len(args)+3; k < n; k++ {
+				switch k % 3 {
+				case 0:
+					_, args, _ = b2.Opt.GetRequiredArg(args)
+				case 1:
+					_, args, _ = b2.Opt.GetRequiredArgInt(args, getoptions.HelpSynopsis)
+				case 2:
+					_, args, _ = b2.Opt.GetRequiredArgFloat64(args, getoptions.HelpNone)
+				}
+			}
 		}()
 		if msg != "" {
 			return msg, false
